@@ -32,7 +32,7 @@ def run(ctx):
     tbl = []
     tbl.append(("NonOwningDecoder.raw_msg_len", an.fields[an.i_raw]["ty"]))
     st_adt = F.adts[STATE]
-    tbl.append(("DecodeState::LookingForMessageStart.num_discarded_bytes", st_adt["variants"][an.v_look]["fields"][an.i_disc]["ty"]))
+    tbl.append(("DecodeState::LookingForMessageStart.num_discarded_bytes", an.disc_ty))
     err = F.adts[ERR]
     db = [v for v in err["variants"] if v["name"] == "DiscardedBytes"]
     if not db or len(db[0]["fields"]) != 1:
